@@ -122,12 +122,37 @@ func ruleDrain(c *Ctx) {
 				for i, r := range pp.Rhs {
 					if r == call && i < len(pp.Lhs) {
 						if v, ok := identObj(info, pp.Lhs[i]).(*types.Var); ok {
+							// the reader may be consumed in this function or in a
+							// goroutine literal that captures the variable
+							user := f
+							usedHere := false
+							for _, uc := range f.Calls() {
+								for _, a := range uc.Args {
+									if identObj(info, a) == v {
+										usedHere = true
+									}
+								}
+							}
+							if !usedHere {
+								for _, lf := range scan {
+									if lf == f {
+										continue
+									}
+									for _, uc := range lf.Calls() {
+										for _, a := range uc.Args {
+											if identObj(lf.Pkg.TypesInfo, a) == v {
+												user = lf
+											}
+										}
+									}
+								}
+							}
 							consumers = append(consumers, struct {
 								f    *Func
 								src  *types.Var
 								expr ast.Expr
 								pipe string
-							}{f, v, nil, pipe})
+							}{user, v, nil, pipe})
 						}
 					}
 				}
